@@ -18,14 +18,11 @@ impl Instruction {
 
         if self.arguments.len() >= 1 {
             for arg in &self.arguments[..] {
+                // same quoting as the compiler's writer: the loader's tokenizer undoes exactly this
                 args.push(' ');
-                if arg.contains(' ') {
-                    args.push('\"');
-                    args.push_str(arg);
-                    args.push('\"');
-                } else {
-                    args.push_str(arg);
-                }
+                args.push('\"');
+                args.push_str(&arg.replace('\\', "\\\\").replace('\"', "\\\""));
+                args.push('\"');
             }
         }
 
